@@ -31,6 +31,8 @@ TRANSLATORS = [
     # (name, argv, outputs)
     ('py2v_units', [sys.executable, os.path.join(TOOLS, 'py2v_units.py'), REPO_SRC, os.path.join(COQ, 'Gen')],
      ['Gen/UnitsGen1.v', 'Gen/UnitsGen2.v']),
+    ('py2v_iso', [sys.executable, os.path.join(TOOLS, 'py2v_iso.py'), REPO_SRC, os.path.join(COQ, 'Gen')],
+     ['Gen/IsoGen.v']),
 ]
 
 
